@@ -76,7 +76,9 @@ func c12Scenarios() []c12Scn {
 	return out
 }
 
-func (s c12Scn) name() string { return fmt.Sprintf("c12/%s/%s/%s", s.Reg, s.Mode, strings.Join(s.Ops, "+")) }
+func (s c12Scn) name() string {
+	return fmt.Sprintf("c12/%s/%s/%s", s.Reg, s.Mode, strings.Join(s.Ops, "+"))
+}
 
 func init() {
 	for _, sc := range c12Scenarios() {
